@@ -171,7 +171,12 @@ def main(pid, tier, seed):
         if pid == 'C04' and rng.random() < 0.3:
             flagsets.append(dict(skip_case=True))
         for flags in flagsets:
-            pcfg = ptq.load_pcfg(d, save_file=os.path.join(d, 'session.sav'), **flags)
+            try:
+                pcfg = ptq.load_pcfg(d, save_file=os.path.join(d, 'session.sav'), **flags)
+            except Exception as ex:
+                if len(core.PENDING_RAISES) < 10:
+                    core.PENDING_RAISES.append({'error': repr(ex), 'clause': pid + '_ruleset_cannot_be_loaded', 'via': 'PcfgGrammar()', 'ruleset': core.short(desc, 200), 'flags': flags})
+                continue
             if pid == 'C04':
                 tid = record_pts(pid, d, pcfg, flags, tid, rng, desc, traces, meta, strings, otraces)
             else:
